@@ -85,12 +85,12 @@ func c19FileStorageRecover(c *Ctx, n int) {
 		if rr.Chance(1, 4) {
 			cs.Then = "OpenFile"
 		}
-		c19fsOne(c, cs)
+		c19fsOne(c, cs, "recover:file-storage:")
 	}
 }
 
-func c19fsOne(c *Ctx, cs *c19fsCase) {
-	sig := func(s string) string { return "recover:file-storage:" + s }
+func c19fsOne(c *Ctx, cs *c19fsCase, pref string) {
+	sig := func(s string) string { return pref + s }
 	dir, err := os.MkdirTemp(c.OutDir, "c19fs-")
 	if err != nil {
 		c.Res.Note("c19fs: %v", err)
@@ -182,5 +182,26 @@ func c19fsOne(c *Ctx, cs *c19fsCase) {
 	}
 	if missOld+missNew > 0 {
 		c.Res.Violate(sig("data-lost-after-reopen"), fmt.Sprintf("%d of %d keys written before the crash and %d of %d keys written with Sync after %s are gone after Close + OpenFile; directory when the process died: %s; after %s: %s; now: %s", missOld, cs.OldKeys, missNew, cs.NewKeys, cs.Then, before, cs.Then, afterRec, c19fsListing(img)), cs)
+	}
+}
+
+// c04FileStorageDeath: the C04 form of the same scenario — the directory left by a process that died inside SetMeta
+// while opening the DB is opened with OpenFile (never Recover): it must open (the files the dead process had created
+// under numbers no manifest records yet are simply overwritten), hold everything written before, accept synced
+// writes and show them after Close + OpenFile.
+func c04FileStorageDeath(c *Ctx, n int) {
+	ops := []string{"stat", "read", "open", "write", "sync", "close", "rename", "syncdir"}
+	for i := 0; i < n && c.TimeLeft(); i++ {
+		r := c.R.Fork()
+		cs := &c19fsCase{Seed: r.U64(), Then: "OpenFile", How: "as C19's file-storage scenario (harness/checks/c19fs.go) with OpenFile on the copied directory"}
+		rr := rng.New(cs.Seed)
+		cs.OldKeys, cs.NewKeys = 50+rr.Intn(300), 50+rr.Intn(300)
+		cs.Compacted = rr.Chance(1, 2)
+		cs.DieOp = ops[rr.Intn(len(ops))]
+		cs.DieNth = rr.Intn(2)
+		if cs.DieOp == "rename" || cs.DieOp == "syncdir" || cs.DieOp == "stat" || cs.DieOp == "read" {
+			cs.DieNth = 0
+		}
+		c19fsOne(c, cs, "open:file-storage:death-inside-setmeta:")
 	}
 }
